@@ -390,4 +390,83 @@ namespace C04
 /-- which rule the current tree uses for the record end of delimited formats
 (false = shipped `ends[:, -1] + 1` after CR stripping, true = repaired) -/
 def delimitedFixed : Bool := true
+
+/-! ### modified writes as the driver runs them: `LazyBNPDataClass.get_buffer` fetches every entry-type column that was not
+replaced as text (`get_field_range_as_text`) and hands the columns to the buffer class's `join_fields` -/
+
+/-- how one column of the entry type is fetched from the extractor -/
+inductive ColKind where
+  | field (k : Nat)     -- `get_field_by_number(k)`
+  | rest (k : Nat)      -- `get_fields_by_range(from_nr = k)` (VCF genotype columns)
+  | extra               -- `SAMBufferExctractor._get_extra_field` (SAM tags)
+  deriving Repr, DecidableEq
+
+/-- the entry type's columns per format (FASTQ's third entry field is the fourth line) -/
+def colKinds (fmt : String) (nF : Nat) : List ColKind :=
+  (List.range nF).map (fun j =>
+    match fmt, j with
+    | "sam", 11 => ColKind.extra
+    | "vcfg", 8 => ColKind.rest 8
+    | "fastq", 2 => ColKind.field 3
+    | _, _ => ColKind.field j)
+
+def Ext.col (e : Ext) : ColKind → List Bytes
+  | .field k => e.fieldText k
+  | .rest k => if delimitedFixed then e.rest k else e.restOld k
+  | .extra => e.samExtra
+
+/-- the columns `get_buffer` assembles: replaced columns as given, the others fetched as text -/
+def Ext.columns (kinds : List ColKind) (repl : List (Nat × List Bytes)) (e : Ext) : List (List Bytes) :=
+  (List.range kinds.length).map (fun j =>
+    match repl.find? (·.1 == j) with
+    | some (_, col) => col
+    | none => e.col (kinds.getD j (.field j)))
+
+/-- the writer's record layout -/
+inductive Layout where
+  | delimited (sep : Nat)                 -- `DelimitedBuffer.join_fields`
+  | kline (header : Nat) (plus : Bool)    -- `OneLineBuffer.join_fields`; `plus`: FASTQ inserts a '+' line before the quality
+  deriving Repr
+
+/-- `join_fields` on the assembled columns -/
+def writeCols (lay : Layout) (n : Nat) (cols : List (List Bytes)) : Bytes :=
+  match lay with
+  | .delimited sep => joinDelimited sep n cols
+  | .kline h false => joinKLine h n cols
+  | .kline h true => joinKLine h n (cols.take 2 ++ [List.replicate n [43]] ++ cols.drop 2)
+
+/-- what `bnp.open(out, "w").write(t)` hands to the file for a lazy table with replaced columns (or a foreign writer) -/
+def Ext.writeModified (lay : Layout) (kinds : List ColKind) (repl : List (Nat × List Bytes)) (e : Ext) : Bytes :=
+  writeCols lay e.len (e.columns kinds repl)
+
+/-- the same for an eager table (rows of field texts) -/
+def writeRowsModified (lay : Layout) (nF : Nat) (repl : List (Nat × List Bytes)) (rows : List (List Bytes)) : Bytes :=
+  writeCols lay rows.length ((List.range nF).map (fun j =>
+    match repl.find? (·.1 == j) with
+    | some (_, col) => col
+    | none => rows.map (fun r => r.getD j [])))
+
+/-- the specification of a column: a function of the abstract record alone -/
+def Rec.col (r : Rec) : ColKind → Bytes
+  | .field k => r.field k
+  | .rest k => r.rest k
+  | .extra => r.extra
+
+/-- one record of a modified write: replaced columns take the new text of this record, the others its original text -/
+def specRow (kinds : List ColKind) (repl : List (Nat × List Bytes)) (i : Nat) (r : Rec) : List Bytes :=
+  (List.range kinds.length).map (fun j =>
+    match repl.find? (·.1 == j) with
+    | some (_, col) => col.getD i []
+    | none => r.col (kinds.getD j (.field j)))
+
+def specRows (kinds : List ColKind) (repl : List (Nat × List Bytes)) (recs : List Rec) : List (List Bytes) :=
+  (List.range recs.length).map (fun i => specRow kinds repl i (recs.getD i ⟨[], []⟩))
+
+/-- the bytes of one written record -/
+def layoutRow : Layout → List Bytes → Bytes
+  | .delimited sep, row => intercalate [sep] row ++ [10]
+  | .kline h plus, row =>
+    match (if plus then row.take 2 ++ [[43]] ++ row.drop 2 else row) with
+    | [] => []
+    | x :: t => (h :: x ++ [10]) ++ (t.map (· ++ [10])).flatten
 end C04
